@@ -87,8 +87,8 @@ def run_cache_rule(ctx, ck, only=None, rule='R-CACHE.owner-only'):
     seen = {}
     for s in sites:
         key = s.key
-        if only is not None and key not in only:
-            continue
+        if only is not None and key not in only and (s.func.qual, s.attr) not in only:
+            continue        # (`only` names sites by key or by (function, attribute) - whatever object holds it)
         if is_registration_idiom(s) or is_first_seen_idiom(ctx, s):
             continue
         c = seen.get(key, 0)
